@@ -173,6 +173,26 @@ Theorem probe_style_one_item_per_citation : forall fmt_name cw fuel fs cites src
 Proof. exact probe_style_output. Qed.
 Print Assumptions probe_style_one_item_per_citation.
 
+(* ... and for one concrete SORTING style,
+     ENTRY {title} {} {}  FUNCTION {f} { cite$ write$ newline$ }  FUNCTION {presort} { title 'sort.key$ := }
+     READ  ITERATE {presort}  SORT  ITERATE {f} :
+   one item per resolved citation, in the order `stable_sort` gives by title (a missing title counts as
+   empty) -- by sort_stable_permutation below: a permutation of the resolved citations, in non-decreasing
+   key order, citations with equal keys in citation order. *)
+Theorem sorted_style_items_in_key_order : forall fmt_name cw fuel fs cites srcs fmt m db,
+  5 <= fuel -> parse_files fs fmt srcs = Ok db ->
+  let rr := engine_read db cites m in
+  exists st, engine_run fmt_name cw fuel fs sorted_style cites srcs fmt m = Ok st /\
+    output_of st = concat (map (fun k => item_text k ++ [c_nl])
+                               (map snd (stable_sort (map (fun k => (sort_key_of rr k, k)) (r_cites rr))))).
+Proof. exact sorted_style_output. Qed.
+Print Assumptions sorted_style_items_in_key_order.
+Theorem stable_sort_spec : forall ks,
+  Permutation (stable_sort ks) ks /\ StronglySorted key_le (stable_sort ks) /\
+  (forall k, filter (has_key k) (stable_sort ks) = filter (has_key k) ks).
+Proof. exact stable_sort_facts. Qed.
+Print Assumptions stable_sort_spec.
+
 (* SORT: the citation list becomes a permutation of itself, in sort.key$ order (Python's string
    order = lexicographic on code points), citations with equal keys keeping their relative order. *)
 Theorem sort_stable_permutation : forall fmt_name cw fuel st st',
@@ -233,6 +253,19 @@ Example file_order_example :
   r_cites (engine_read [ex_child; ex_other; ex_parent] [S_ "c"; S_ "o"] 1) = [S_ "c"; S_ "o"; S_ "p"] /\
   option_map (fun e => alookup str_eqb (S_ "year") (e_fields e))
     (alookup str_eqb (S_ "c") (r_entries (engine_read [ex_other; ex_child; ex_parent] [S_ "c"; S_ "o"] 1))) = Some (Some (S_ "1999")).
+Proof. vm_compute. auto. Qed.
+
+Example end_to_end_example :
+  option_map output_of (match engine_run nofmt nocw 9 ex_fs sorted_style [S_ "b"; S_ "u"; S_ "a"; S_ "zz"] [BName (S_ "db.bib")] 0 2 with Ok st => Some st | _ => None end)
+    = Some (S_ "a
+b
+u
+") /\
+  option_map output_of (match engine_run nofmt nocw 9 ex_fs probe_style [S_ "b"; S_ "u"; S_ "a"; S_ "zz"] [BName (S_ "db.bib")] 0 2 with Ok st => Some st | _ => None end)
+    = Some (S_ "b
+u
+a
+").
 Proof. vm_compute. auto. Qed.
 
 Example sort_example :
